@@ -15,6 +15,8 @@ import (
 	"github.com/scrapli/scrapligo/driver/options"
 	"github.com/scrapli/scrapligo/response"
 	"github.com/scrapli/scrapligo/util"
+
+	"verifharness/simdev"
 )
 
 // C03: sessions of NcReqScn.tla; what the client transmitted is recorded for NcRequestTrace.tla.
@@ -32,6 +34,7 @@ type c03Op struct {
 type c03Scn struct {
 	ID        int     `json:"id"`
 	Version   string  `json:"version"`
+	Prev      string  `json:"prev"`
 	SelfClose bool    `json:"selfclose"`
 	Header    bool    `json:"header"`
 	Ops       []c03Op `json:"ops"`
@@ -49,10 +52,11 @@ var c03Args = map[string]string{
 	"pi":                   `<x><?proc instr?></x>`,
 	"whitespace-only":      `<w>  </w>`,
 	"mixed":                `<m>text<b></b>tail</m>`,
+	"percent":              `<description>100% reserved, a%2Fb if%20doc %d %s %v %%</description>`,
 }
 
 var c03XPath = map[string]string{
-	"ascii": `/interfaces/interface`, "multibyte": `/a[b='Zürich']`, "attrs": `/a[@b="1"]/c`, "long": "/" + strings.Repeat("seg/", 300) + "x",
+	"ascii": `/interfaces/interface`, "multibyte": `/a[b='Zürich']`, "attrs": `/a[@b="1"]/c`, "percent": `/a[b='50%25 %s']`, "long": "/" + strings.Repeat("seg/", 300) + "x",
 }
 
 // canon renders an XML document as a canonical token list.
@@ -146,7 +150,39 @@ func c03Session(s *c03Scn, enc *json.Encoder) verdict {
 		extra = append(extra, options.WithNetconfExcludeHeader())
 	}
 
-	sess, err := newNcSession(ncConfig{adv10: true, adv11: true, preferred: s.Version, seg: faultSegs["rand"], seed: int64(s.ID), timeout: 3 * time.Second, extra: extra, reply: ncReplyOK})
+	cfg := ncConfig{adv10: true, adv11: true, preferred: s.Version, seg: faultSegs["rand"], seed: int64(s.ID), timeout: 3 * time.Second, extra: extra, reply: ncReplyOK}
+	if s.Prev == "1.0" || s.Prev == "1.1" {
+		cfg.adv10, cfg.adv11, cfg.preferred = s.Prev == "1.0", s.Prev == "1.1", ""
+	}
+
+	sess, err := newNcSession(cfg)
+	if err == nil && cfg.preferred == "" {
+		// the earlier session: opened and closed again; then the peer changes what it offers
+		if err = sess.d.Open(); err == nil {
+			if _, gerr := sess.d.Get(""); gerr != nil {
+				err = gerr
+			}
+		}
+
+		if err == nil {
+			_ = sess.d.Close()
+
+			only := "urn:ietf:params:netconf:base:" + s.Version
+
+			sess.pipe.Lock()
+			sess.srv.Hello = simdev.HelloXML([]string{only, "urn:example:cap:2.0"}, "43", "", true, false)
+			sess.srv.Advertises = map[string]bool{"1.0": s.Version == "1.0", "1.1": s.Version == "1.1"}
+			sess.srv.Requests, sess.srv.FramingErrors = nil, nil
+			sess.pipe.Unlock()
+		}
+
+		if err != nil {
+			v.OK, v.Sig, v.Detail = false, "TOOL", fmt.Sprintf("the earlier session failed: %v", err)
+
+			return v
+		}
+	}
+
 	if err == nil {
 		err = sess.d.Open()
 	}
@@ -158,6 +194,18 @@ func c03Session(s *c03Scn, enc *json.Encoder) verdict {
 	}
 
 	defer func() { _, _ = withWatchdog(3*time.Second, func() { _ = sess.d.Close() }) }()
+
+	if cfg.preferred == "" {
+		sess.pipe.Lock()
+		ch := sess.srv.ClientHello
+		sess.pipe.Unlock()
+
+		if !strings.Contains(ch, "<capability>urn:ietf:params:netconf:base:"+s.Version+"</capability>") {
+			fail(&v, "C03:"+s.Version+":framing-not-negotiated", "second session on the same driver (the first peer offered only %s, this one offers only %s): the client's hello does not offer %s: %q", s.Prev, s.Version, s.Version, ch)
+
+			return v
+		}
+	}
 
 	events := []map[string]interface{}{{"ev": "reset", "t": s.ID, "version": s.Version, "selfclose": s.SelfClose, "header": s.Header}}
 	d := sess.d
@@ -176,7 +224,7 @@ func c03Session(s *c03Scn, enc *json.Encoder) verdict {
 				break
 			}
 
-			idOff = 1
+			idOff++
 		}
 
 		arg := c03Args[op.Arg]
@@ -273,6 +321,11 @@ func c03Session(s *c03Scn, enc *json.Encoder) verdict {
 			framed, payload, msgid = sess.srv.Requests[j].Framed, sess.srv.Requests[j].Payload, sess.srv.Requests[j].MsgID
 		}
 		sess.pipe.Unlock()
+
+		if j == 0 && cfg.preferred == "" && msgid > 0 {
+			// where the ids of a later session on the same object start is the client's business; from there on they are consecutive
+			idOff = msgid - 101
+		}
 
 		switch {
 		case !fin:
